@@ -64,6 +64,10 @@ func (t *Tracer) Once(key string) bool {
 }
 
 func (t *Tracer) Emit(e Ev) {
+	// the position of the event in the order the calls were made by this process: chunks
+	// interleave cases, so a replay of a whole history needs it (state that outlives a case,
+	// e.g. a package-level cache in the library)
+	e["seq"] = t.Events
 	b, err := json.Marshal(e)
 	if err != nil {
 		panic(err)
